@@ -1,6 +1,7 @@
 package exif2
 
 import (
+	"fmt"
 	"sync"
 	"time"
 )
@@ -12,10 +13,11 @@ var (
 	mutexTimeZones = sync.RWMutex{}
 )
 
-// getLocation faciliates an offset and a time string to result
-// with a *time.Location creating it when not cound in the cache.
+// getLocation faciliates an offset to result with a *time.Location
+// creating it when not cound in the cache. The zone is named after the
+// offset ("+01:00"), so a cached zone is the same whichever file asked first.
 // RWMutex for concurrancy.
-func getLocation(offset int32, buf []byte) *time.Location {
+func getLocation(offset int32) *time.Location {
 	mutexTimeZones.RLock()
 	if z, ok := cacheTimeZone[offset]; ok {
 		mutexTimeZones.RUnlock()
@@ -23,7 +25,11 @@ func getLocation(offset int32, buf []byte) *time.Location {
 	}
 	mutexTimeZones.RUnlock()
 	mutexTimeZones.Lock()
-	l := time.FixedZone(string(buf), int(offset))
+	sign, abs := '+', offset
+	if offset < 0 {
+		sign, abs = '-', -offset
+	}
+	l := time.FixedZone(fmt.Sprintf("%c%02d:%02d", sign, abs/3600, abs%3600/60), int(offset))
 	cacheTimeZone[offset] = l
 	mutexTimeZones.Unlock()
 	return l
